@@ -75,12 +75,14 @@ def register(reg):
 
     # concatenation
     reg.add(Spec(T + "__add__", dict(self="Track", track="Track"), "Track",
-                 requires=["twf(self)", "twf(track)"], fresh=["Track"],
+                 requires=[], fresh=["Track"],
                  locals=dict(AF1="list[str]", AF2="list[str]"),
                  ensures=[("new-track", "isnew(result)"),
                           ("length", "npts(result) == npts(self) + old(npts(track))"),
                           ("first-operand-then-second", "all(pts(result)[q] == pts(self)[q] for q in range(0, npts(self))) and "
                            "all(pts(result)[npts(self) + q] == old(pts(track))[q] for q in range(0, old(npts(track))))"),
+                          ("second-operand-by-position", "all(implies(q >= npts(self), pts(result)[q] == old(pts(track))[q - npts(self)]) "
+                           "for q in range(0, npts(result)))"),
                           ("feature-table-carried-or-empty", "same(result.%s, self.%s) or nfeat(result) == 0" % (DICO, DICO))],
                  loops={"1": LoopSpec(inv=["isnew(track)", "unchanged_old('Track.%s', 'Track.%s')" % (PTS, DICO)])}))
 
